@@ -875,6 +875,7 @@ namespace link_layer {
         std::uint8_t                    phy_update_request_receive_;
         bool                            remote_versions_request_pending_;
         bool                            version_indication_received_;
+        bool                            version_indication_send_;
 
         // default configuration parameters
         typedef                         advertising_interval< 100 >         default_advertising_interval;
@@ -909,6 +910,7 @@ namespace link_layer {
         , phy_update_request_pending_( false )
         , remote_versions_request_pending_( false )
         , version_indication_received_( false )
+        , version_indication_send_( false )
     {
         using user_timer_t = typename bluetoe::details::find_by_meta_type<
             details::synchronized_connection_event_callback_meta_type,
@@ -967,6 +969,7 @@ namespace link_layer {
                 pending_event_                          = false;
                 remote_versions_request_pending_        = false;
                 version_indication_received_            = false;
+                version_indication_send_                = false;
                 disconnecting_reason_                   = connection_timeout;
                 procedure_timeout_                      = delta_time();
 
@@ -1210,7 +1213,8 @@ namespace link_layer {
     template < class Server, template < std::size_t, std::size_t, class > class ScheduledRadio, typename ... Options >
     bool link_layer< Server, ScheduledRadio, Options... >::remote_versions_request()
     {
-        if ( remote_versions_request_pending_ || !procedure_timeout_.zero() )
+        // only one LL_VERSION_IND is allowed to be send during a connection
+        if ( remote_versions_request_pending_ || version_indication_send_ || !procedure_timeout_.zero() )
             return false;
 
         remote_versions_request_pending_ = true;
@@ -1324,10 +1328,16 @@ namespace link_layer {
 
             this->commit_ll_transmit_buffer( out_buffer );
         }
+        else if ( remote_versions_request_pending_ && version_indication_send_ )
+        {
+            // meanwhile, the central started the version exchange
+            remote_versions_request_pending_ = false;
+        }
         else if ( remote_versions_request_pending_ )
         {
             procedure_timeout_ = delta_time( default_procedure_timeout_us );
             remote_versions_request_pending_ = false;
+            version_indication_send_ = true;
 
             fill< layout_t >( out_buffer, {
                 ll_control_pdu_code, 6, LL_VERSION_IND,
@@ -1601,13 +1611,23 @@ namespace link_layer {
                 if ( body[ 1 ] <= LL_VERSION_40 )
                     used_features_ = used_features_ & ~link_layer_feature::connection_parameters_request_procedure;
 
-                fill< layout_t >( write, {
-                    ll_control_pdu_code, 6, LL_VERSION_IND,
-                    LL_VERSION_NR,
-                    static_cast< std::uint8_t >( company_identifier ),
-                    static_cast< std::uint8_t >( company_identifier >> 8 ),
-                    0x00, 0x00
-                } );
+                // if the version exchange was started by this device, the received PDU is already the response
+                if ( version_indication_send_ )
+                {
+                    commit = false;
+                }
+                else
+                {
+                    fill< layout_t >( write, {
+                        ll_control_pdu_code, 6, LL_VERSION_IND,
+                        LL_VERSION_NR,
+                        static_cast< std::uint8_t >( company_identifier ),
+                        static_cast< std::uint8_t >( company_identifier >> 8 ),
+                        0x00, 0x00
+                    } );
+
+                    version_indication_send_ = true;
+                }
 
                 this->version_indication_received( &body[ 1 ], connection_data_, static_cast< radio_t& >( *this ) );
                 version_indication_received_ = true;
